@@ -1,16 +1,17 @@
-"""C10 -- thin module (to be enriched): geometry engine with this property's oracles."""
+"""C10 -- volume() is the true measure of the domain (partial claim)"""
 from . import geo_cases
 from .. import geosim
 from .geo_common import *  # noqa
 
 ID = "C10"
 LEVEL = "exploration"
-RULE = "see DESIGN.md"
-ASSUMPTIONS = GEO_ASSUMPTIONS
+PROBES = ('volumes_judged', 'volumes_direct', 'density_judged')
+RULE = ('geometry cases with density entries over-weighted; judged: (i) every volume(params) the library computed during simulated sampling on every node (monitor) and volume(params) of the root against R-geo closed forms / composition rules (rtol 1e-4, one positive value per row), (ii) density sampling: rows == ceil(d*mu) for closed-form primitives and their boundaries (float rounding at integers accepted), grid rows in [0|1, ceil(d*mu)+leaves-1], (iii) pooled mean count of rejection-based shapes and Boolean combinations against d*mu_true (z-test alpha=1e-9, mu_true by quadrature of the reference margin) in the thorough pre-phase, (iv) histories: set_volume / flags through partial evaluation, translation, rotation. non-trivial = at least one volume or count judged')
+ASSUMPTIONS = GEO_ASSUMPTIONS + ['volume() of expressions without an exact value (non-disjoint unions, non-contained cuts, intersections, dependent products) is only checked for shape/positivity where monitored']
 
 
 def budget(tier):
-    return {"cases": 4000 if tier == "quick" else 100000, "wall": 600 if tier == "quick" else 3300,
+    return {"cases": 5000 if tier == "quick" else 150000, "wall": 600 if tier == "quick" else 3300,
             "shrink": 80, "det_legs": 6}
 
 
@@ -20,5 +21,5 @@ def gen_case(seed, tier="quick"):
 
 def run_case(case):
     rec = geosim.run_case(case, props=(ID,))
-    finish(rec, case, judged_key="rows_judged")
+    finish(rec, case, judged_key='volumes_direct')
     return rec
